@@ -111,6 +111,9 @@ def exTrees : List Tree :=
 example : (encodeMessage none (Trees.toParams exTrees) (.dict (Trees.pair exTrees).val) none true).toOption
     = some ([0x22, 0xf1, 0x90, 0x7f, 0x64, 0xfe, 0xff, 0xfe, 0xff], 0) := by decide +kernel
 example : Trees.need exTrees + 2 ≤ modelFuel := by decide
+/-- the flattening of the example (used by `C02_bit_exact_struct`): absolute byte positions of the leaves -/
+example : (Trees.flat exTrees 0 0).1.map (fun ov => (ov.1.name, ov.1.bytePos)) =
+    [("sid", some 0), ("did", some 1), ("a", some 4), ("x", some 7), ("b", some 5), ("y", some 3)] := by decide
 
 example : int32Known (some .sm) = true ∧ Spec.representable (some .sm) 9 (-255) := by
   simp [int32Known, Spec.representable]
